@@ -104,6 +104,12 @@ func newC19(job *Job, res *Result, alphabet []gencore.Invocation) *c19env {
 				GenClient: t.Choose(2, "c") == 1, APIHandler: t.Choose(4, "a") != 0, DoNotEdit: t.Choose(2, "d") == 1,
 				Package: []string{"test", "api"}[t.Choose(2, "p")], SpecHandler: "openapi.yaml", BasePath: []string{"", "/v1"}[t.Choose(2, "b")]})
 		}
+		// a twin of the first extra invocation that differs only in a flag of the same length
+		if len(alphabet) > 8 {
+			twin := alphabet[8]
+			alphabet[8].BasePath, twin.BasePath = "/v1", "/v2"
+			alphabet = append(alphabet, twin)
+		}
 	}
 	e.alphabet = alphabet
 	for i, inv := range alphabet {
@@ -179,7 +185,7 @@ func (e *c19env) decode(t *tape.Tape) c19plan {
 		case k == 6:
 			p.Steps = append(p.Steps, c19step{Op: "user_write", File: t.Choose(len(userNames), "ufile"), How: t.Choose(3, "content")})
 		case k == 7:
-			p.Steps = append(p.Steps, c19step{Op: "user_edit", File: t.Choose(len(goagNames), "ofile"), How: t.Choose(4, "how")})
+			p.Steps = append(p.Steps, c19step{Op: "user_edit", File: t.Choose(len(goagNames), "ofile"), How: t.Choose(5, "how")})
 		default:
 			s := c19step{Op: "gen", Inv: all[t.Choose(len(all), "inv")]}
 			drawFault(&s)
@@ -210,6 +216,7 @@ func (e *c19env) execC19(p c19plan) (o c19outcome) {
 	o.probes = map[string]int{}
 	in, D := e.freshDirs()
 	defer os.RemoveAll(filepath.Dir(in))
+	simos.ResetClock()
 	if p.SpecInOut {
 		in = D
 	}
@@ -221,10 +228,14 @@ func (e *c19env) execC19(p c19plan) (o c19outcome) {
 		if err := os.WriteFile(fp, []byte(content), 0o644); err != nil {
 			fatal(err)
 		}
+		simos.Touch(fp)
 		user[name] = content
 	}
 	writeUser("impl.go", userContent("impl.go", 0))
 	writeUser("README.md", "# user readme\n")
+	writeUser("client_test.go", userContent("client_test.go", 0))
+	writeUser("sub/keep.go", userContent("sub/keep.go", 0))
+	writeUser("handler_impl.go", userContent("handler_impl.go", 0))
 	lastInv := -1
 	cleanInv := -1 // D is known to reflect this invocation exactly
 	tornPending := false
@@ -417,7 +428,17 @@ func (e *c19env) execC19(p c19plan) (o c19outcome) {
 				os.Remove(fp)
 			case 3:
 				os.WriteFile(fp, []byte(strings.Repeat("x", len(b)+4096)), 0o644)
+			case 4:
+				// same-length damage: size-based "up to date" tests cannot see it
+				c := append([]byte(nil), b...)
+				for i := len(c) / 3; i < len(c)/3+40 && i < len(c); i++ {
+					if c[i] != '\n' {
+						c[i] = 'X'
+					}
+				}
+				os.WriteFile(fp, c, 0o644)
 			}
+			simos.Touch(fp)
 			cleanInv = -1
 			trace("%s user damages %s (how=%d)", label, n, st.How)
 			o.logParts = append(o.logParts, "ue", n, fmt.Sprint(st.How))
